@@ -19,13 +19,16 @@
 #include "vf.h"
 
 #define INF ((size_t)-1)
+/* present only in executables that wrap the allocator (engine/alloc.c): keep our own buffers out of its books */
+void alloc_suspend(int) __attribute__((weak));
+#define UNTRACKED(stmt) do { if (alloc_suspend) alloc_suspend(1); stmt; if (alloc_suspend) alloc_suspend(-1); } while (0)
 enum { K_FREE = 0, K_STREAM, K_LISTENER, K_CONNECTING };
 
 struct ffd {
 	int kind, open, closed_once, attempt;
 	/* inbound */
 	const uint8_t * in; size_t inlen, arrived, nread; int in_end, end_arrived, end_delivered;
-	int spurious_r, eintr_r;
+	int spurious_r, eintr_r; size_t hold;	/* inbound data is held back until this many bytes were sent (causal peer) */
 	/* outbound */
 	uint8_t * out; size_t outlen, outcap, space; int broken, spurious_w, eintr_w;
 	/* connecting */
@@ -35,7 +38,7 @@ struct ffd {
 	int nrecv, nsend, nsenderr;
 };
 static struct ffd F[FK_NFD];
-static struct { int behav; const uint8_t * in; size_t inlen; int in_end; } CS[16];
+static struct { int behav; const uint8_t * in; size_t inlen; int in_end; size_t hold; } CS[16];
 static int nsockets, nconnects, conn_order[16], attempt_fd[16];
 static size_t amenu[250]; static int namenu;
 static size_t smenu[32]; static int nsmenu;
@@ -46,6 +49,7 @@ long long fk_now_us = 1000000;
 int fk_teardown_mode = 0, fk_poll_horizon = 200, fk_npolls = 0;
 void (*fk_pre_poll_hook)(const struct pollfd *, int, int) = NULL;
 int fk_accept_hard_errors = 0;
+int fk_send_deviated = 0, fk_force_arrival = 0;
 void (*fk_post_poll_hook)(int) = NULL;
 void (*fk_blocked_hook)(void) = NULL;
 
@@ -67,7 +71,7 @@ void
 fk_reset(void)
 {
 	int i;
-	for (i = 0; i < FK_NFD; i++) { free(F[i].out); memset(&F[i], 0, sizeof(F[i])); }
+	for (i = 0; i < FK_NFD; i++) { UNTRACKED(free(F[i].out)); memset(&F[i], 0, sizeof(F[i])); }
 	memset(CS, 0, sizeof(CS));
 	for (i = 0; i < 16; i++) { CS[i].behav = FK_C_IMMEDIATE; conn_order[i] = -1; attempt_fd[i] = -1; }
 	nsockets = nconnects = 0; haverr = 0; fk_now_us = 1000000; fk_npolls = 0;
@@ -79,7 +83,7 @@ newfd(int kind)
 	int i;
 	for (i = 0; i < FK_NFD; i++) if (!F[i].open) break;
 	if (i == FK_NFD) { errno = EMFILE; return (-1); }
-	free(F[i].out);
+	UNTRACKED(free(F[i].out));
 	memset(&F[i], 0, sizeof(F[i]));
 	F[i].kind = kind; F[i].open = 1; F[i].attempt = -1;
 	return (FK_FD0 + i);
@@ -106,6 +110,7 @@ fk_connect_script(int idx, int behaviour, const uint8_t * in, size_t inlen, int 
 	if (idx < 0 || idx >= 16) vf_engine_error("connect script index");
 	CS[idx].behav = behaviour; CS[idx].in = in; CS[idx].inlen = inlen; CS[idx].in_end = in_end;
 }
+void fk_connect_script_hold(int idx, size_t n){ if (idx >= 0 && idx < 16) CS[idx].hold = n; }
 void fk_set_arrival_menu(const size_t * a, int n){ int i; if (n > 250) n = 250; for (i = 0; i < n; i++) amenu[i] = a[i]; namenu = n; }
 void fk_set_space_menu(const size_t * a, int n){ int i; if (n > 32) n = 32; for (i = 0; i < n; i++) smenu[i] = a[i]; nsmenu = n; }
 
@@ -164,6 +169,12 @@ inbound_choice(struct ffd * f, int fd)
 	size_t rem = f->inlen - f->arrived; int endpend = (f->in_end != FK_END_NONE && !f->end_arrived);
 	int opts[300], kind[300], n = 0, j, c;	/* kind: 0 all, 1 amount idx, 2 data only, 3 nothing, 4 spurious, 5 eintr */
 	int readable;
+	if (f->outlen < f->hold) return ((f->arrived > f->nread) || f->end_arrived);	/* the peer has not seen the whole request yet */
+	if (fk_force_arrival) {	/* fixed fragmentation, no choice points: menu[0] bytes per poll, the end marker on its own */
+		if (rem > 0) f->arrived += (namenu && amenu[0] < rem) ? amenu[0] : rem;
+		else if (endpend) f->end_arrived = 1;
+		return ((f->arrived > f->nread) || f->end_arrived);
+	}
 	if (rem > 0 || endpend) {
 		kind[n++] = 0;
 		for (j = 0; j < namenu; j++) if (amenu[j] > 0 && amenu[j] < rem) { opts[n] = j; kind[n++] = 1; }
@@ -194,6 +205,7 @@ outbound_choice(struct ffd * f, int fd)
 {
 	int kind[64], opts[64], n = 0, j, c;	/* 0 unlimited, 1 amount, 2 none, 3 EPIPE, 4 spurious, 5 eintr */
 	if (f->broken) return (1);
+	if (fk_force_arrival) { f->space = INF; return (1); }
 	kind[n++] = 0;
 	for (j = 0; j < nsmenu; j++) { opts[n] = j; kind[n++] = 1; }
 	kind[n++] = 2;
@@ -201,6 +213,7 @@ outbound_choice(struct ffd * f, int fd)
 	if (fk_allow_spurious) kind[n++] = 4;
 	if (fk_allow_eintr) kind[n++] = 5;
 	c = mc_choose(n, "sendspace");
+	if (c != 0) fk_send_deviated = 1;
 	switch (kind[c]) {
 	case 0: f->space = INF; break;
 	case 1: f->space = smenu[opts[c]]; break;
@@ -296,7 +309,7 @@ send(int fd, const void * buf, size_t len, int flags)
 	if (f->broken) { f->nsenderr++; mc_note("send(fd %d, %zu) -> EPIPE", fd, len); errno = EPIPE; return (-1); }
 	if (f->space == 0) { mc_note("send(fd %d, %zu) -> EAGAIN", fd, len); errno = EAGAIN; return (-1); }
 	k = (f->space == INF || f->space >= len) ? len : f->space;
-	if (f->outlen + k > f->outcap) { f->outcap = (f->outlen + k) * 2 + 64; f->out = realloc(f->out, f->outcap); if (!f->out) vf_engine_error("oom in fake kernel"); }
+	if (f->outlen + k > f->outcap) { f->outcap = (f->outlen + k) * 2 + 64; UNTRACKED(f->out = realloc(f->out, f->outcap)); if (!f->out) vf_engine_error("oom in fake kernel"); }
 	memcpy(f->out + f->outlen, buf, k); f->outlen += k;
 	if (f->space != INF) f->space -= k;
 	mc_note("send(fd %d, %zu) -> %zu", fd, len, k);
@@ -313,7 +326,7 @@ socket(int domain, int type, int protocol)
 	fd = newfd(K_CONNECTING);
 	if (fd < 0) { errno = EMFILE; return (-1); }
 	f = getf(fd); f->behav = CS[idx].behav; f->attempt = idx; attempt_fd[idx] = fd;
-	f->in = CS[idx].in; f->inlen = CS[idx].inlen; f->in_end = CS[idx].in_end;
+	f->in = CS[idx].in; f->inlen = CS[idx].inlen; f->in_end = CS[idx].in_end; f->hold = CS[idx].hold;
 	mc_note("socket() #%d -> fd %d", idx, fd);
 	return (fd);
 }
